@@ -81,6 +81,15 @@ def impl_gantt(P, kind, seq, m):
         o = P["BaseWorker"]("w", state_record_list=[P["BaseWorkerState"](s) for s in seq])
     else:
         o = P["BaseFacility"]("f", state_record_list=[P["BaseFacilityState"](s) for s in seq])
+    if len(seq) >= 2 and (sum(seq) + len(seq)) % 3 == 0:
+        # the same question asked before, when the log was shorter (a cut-off run that was continued, steps
+        # inserted later): the log list is edited in place, the answer must be the one for the log as it is now
+        full = list(o.state_record_list)
+        k = len(full) // 2
+        lst = o.state_record_list
+        del lst[k:]
+        o.get_time_list_for_gannt_chart(finish_margin=fm)
+        lst.extend(full[k:])
     res = o.get_time_list_for_gannt_chart(finish_margin=fm)
     return [norm_runs(x) for x in res]
 
